@@ -41,6 +41,27 @@ macro_rules! ep {
     }};
 }
 
+/// Hand the text to a reader that takes a path: one scratch file per worker thread (in /dev/shm when there is one),
+/// removed when the thread ends.
+fn with_file<R>(s: &str, f: impl FnOnce(&std::path::Path) -> R) -> R {
+    struct Scratch(std::path::PathBuf);
+    impl Drop for Scratch {
+        fn drop(&mut self) {
+            let _ = std::fs::remove_file(&self.0);
+        }
+    }
+    thread_local! {
+        static PATH: Scratch = {
+            let dir = if std::path::Path::new("/dev/shm").is_dir() { std::path::PathBuf::from("/dev/shm") } else { std::env::temp_dir() };
+            Scratch(dir.join(format!("verif-c02-{}-{:?}", std::process::id(), std::thread::current().id())))
+        };
+    }
+    PATH.with(|p| {
+        std::fs::write(&p.0, s.as_bytes()).expect("scratch file");
+        f(&p.0)
+    })
+}
+
 pub fn entry_points() -> Vec<EntryPoint> {
     use Group::*;
     let mut v = vec![];
@@ -52,7 +73,16 @@ pub fn entry_points() -> Vec<EntryPoint> {
     v.push(ep!("deb822_lossless::lossy::Deb822::from_str", Doc, &[], |s| deb822_lossless::lossy::Deb822::from_str(s).map(|d| d.to_string())));
     v.push(ep!("deb822_lossless::lossy::Paragraph::from_str", Doc, &[], |s| deb822_lossless::lossy::Paragraph::from_str(s).map(|d| d.to_string())));
     v.push(ep!("deb822_lossless::lossy::Deb822::from_reader", Doc, &[], |s| deb822_lossless::lossy::Deb822::from_reader(Cursor::new(s.as_bytes())).is_ok()));
+    v.push(ep!("deb822_lossless::Deb822::read_relaxed", Doc, &[], |s| deb822_lossless::Deb822::read_relaxed(Cursor::new(s.as_bytes())).is_ok()));
+    v.push(ep!("deb822_lossless::Deb822::from_file", Doc, &[], |s| with_file(s, |p| deb822_lossless::Deb822::from_file(p).is_ok())));
+    v.push(ep!("deb822_lossless::Deb822::from_file_relaxed", Doc, &[], |s| with_file(s, |p| deb822_lossless::Deb822::from_file_relaxed(p).is_ok())));
     // relations
+    v.push(ep!("relations::Lexer (public token iterator)", Rel, &[], |s| debian_control::relations::Lexer::new(s).count()));
+    v.push(ep!("serde: lossless::relations::Relations", Rel, &[], |s| serde_json::from_value::<debian_control::lossless::relations::Relations>(Value::String(s.to_string())).map(|r| r.to_string())));
+    v.push(ep!("serde: lossless::relations::Entry", Rel, &[], |s| serde_json::from_value::<debian_control::lossless::relations::Entry>(Value::String(s.to_string())).map(|r| r.to_string())));
+    v.push(ep!("serde: lossless::relations::Relation", Rel, &[], |s| serde_json::from_value::<debian_control::lossless::relations::Relation>(Value::String(s.to_string())).map(|r| r.to_string())));
+    v.push(ep!("serde: lossy::Relations", Rel, &[], |s| serde_json::from_value::<debian_control::lossy::Relations>(Value::String(s.to_string())).map(|r| r.to_string())));
+    v.push(ep!("serde: lossy::Relation", Rel, &[], |s| serde_json::from_value::<debian_control::lossy::Relation>(Value::String(s.to_string())).map(|r| r.to_string())));
     v.push(ep!("lossless::relations::Relations::from_str", Rel, &[], |s| debian_control::lossless::relations::Relations::from_str(s).map(|r| r.to_string())));
     v.push(ep!("lossless::relations::Relations::parse_relaxed(_, false)", Rel, &[], |s| debian_control::lossless::relations::Relations::parse_relaxed(s, false).0.to_string()));
     v.push(ep!("lossless::relations::Relations::parse_relaxed(_, true)", Rel, &[], |s| debian_control::lossless::relations::Relations::parse_relaxed(s, true).0.to_string()));
@@ -68,6 +98,13 @@ pub fn entry_points() -> Vec<EntryPoint> {
     v.push(ep!("lossy::ftpmaster::Removal::from_str", Doc, &["lossy::ftpmaster::Removal"], |s| debian_control::lossy::ftpmaster::Removal::from_str(s).is_ok()));
     v.push(ep!("lossless::Control::from_str", Doc, &[], |s| debian_control::lossless::control::Control::from_str(s).map(|c| c.as_deb822().to_string())));
     v.push(ep!("lossless::Control::read_relaxed", Doc, &[], |s| debian_control::lossless::control::Control::read_relaxed(Cursor::new(s.as_bytes())).is_ok()));
+    v.push(ep!("lossless::Control::read", Doc, &[], |s| debian_control::lossless::control::Control::read(Cursor::new(s.as_bytes())).is_ok()));
+    v.push(ep!("lossless::Control::from_file", Doc, &[], |s| with_file(s, |p| debian_control::lossless::control::Control::from_file(p).is_ok())));
+    v.push(ep!("lossless::Control::from_file_relaxed", Doc, &[], |s| with_file(s, |p| debian_control::lossless::control::Control::from_file_relaxed(p).is_ok())));
+    v.push(ep!("lossless::changes::Changes::from_file", Doc, &[], |s| with_file(s, |p| debian_control::lossless::changes::Changes::from_file(p).is_ok())));
+    v.push(ep!("lossless::changes::Changes::from_file_relaxed", Doc, &[], |s| with_file(s, |p| debian_control::lossless::changes::Changes::from_file_relaxed(p).is_ok())));
+    v.push(ep!("copyright::lossless::Copyright::from_file", Doc, &[], |s| with_file(s, |p| debian_copyright::lossless::Copyright::from_file(p).is_ok())));
+    v.push(ep!("copyright::lossless::Copyright::from_file_relaxed", Doc, &[], |s| with_file(s, |p| debian_copyright::lossless::Copyright::from_file_relaxed(p).is_ok())));
     v.push(ep!("lossless::apt::Source::from_str", Doc, &[], |s| debian_control::lossless::apt::Source::from_str(s).is_ok()));
     v.push(ep!("lossless::apt::Package::from_str", Doc, &[], |s| debian_control::lossless::apt::Package::from_str(s).is_ok()));
     v.push(ep!("lossless::apt::Release::from_str", Doc, &[], |s| debian_control::lossless::apt::Release::from_str(s).is_ok()));
